@@ -17,6 +17,7 @@ import Sigverif.Model.Visitor
 import Sigverif.Model.Grammar
 import Sigverif.Model.Discovery
 import Sigverif.Model.WrappersAttr
+import Sigverif.Model.ReadSig
 namespace SV.Proto
 
 def splitNE (s : String) (sep : String) : List String :=
@@ -430,6 +431,59 @@ def resolveWith (tbl : List (String × USig)) (partialMarker : String) (r : RM) 
   | some e => .fn e.2
   | none => .unresolvable
 
+/-! ### the string layer of `support` (Model/ReadSig.lean): pieces are `S`, `B`, `c:n:ann:dflt`, `s1:…`, `s2:…`, `p:…` -/
+
+def parsePiece (s : String) : Option Piece :=
+  match s.splitOn ":" with
+  | ["S"] => some .slash
+  | ["B"] => some .bare
+  | [t, n, a, d] => do
+    let n ← n.toNat?
+    let a ← optNat a
+    let d ← optNat d
+    match t with
+    | "c" => some (.chev n a d)
+    | "s1" => some (.star false n a d)
+    | "s2" => some (.star true n a d)
+    | "p" => some (.plain n a d)
+    | _ => none
+  | _ => none
+
+def showItem : Item → String
+  | .slash => "/"
+  | .bare => "*"
+  | .par s n a d => s!"{s}:{n}:{showOpt a}:{showOpt d}"
+
+def showNats (l : List Nat) : String := showList (l.map toString) "."
+
+def showSErr : SErr → String
+  | .syntaxError => "SyntaxError" | .valueError => "ValueError"
+
+def readSigOp : List String → Option String
+  | ua :: upo :: ukw :: p :: [] => do
+    let ps ← (splitNE p ",").mapM parsePiece
+    let r := readSig (← parseB ua) (← parseB upo) (← parseB ukw) ps
+    some s!"ok {showNats r.names} {showPairs r.anns "."} {showNats r.poso} {showNats r.kwo} {showList (r.params.map showItem) ","}"
+  | _ => none
+
+def sTextOp : List String → Option String
+  | ua :: upo :: ukw :: p :: [] => do
+    let ps ← (splitNE p ",").mapM parsePiece
+    some (match sParams (← parseB ua) (← parseB upo) (← parseB ukw) ps with
+      | .ok F => "ok " ++ showParams F
+      | .error e => "err " ++ showSErr e)
+  | _ => none
+
+def piecesOp : List String → Option String
+  | p :: [] => do
+    let F ← parseParams p
+    some ("ok " ++ showList ((pieces F).map (fun
+      | .slash => "S" | .bare => "B"
+      | .chev n a d => s!"c:{n}:{showOpt a}:{showOpt d}"
+      | .star two n a d => (if two then "s2" else "s1") ++ s!":{n}:{showOpt a}:{showOpt d}"
+      | .plain n a d => s!"p:{n}:{showOpt a}:{showOpt d}")) ",")
+  | _ => none
+
 /-- one request line → one answer line -/
 def handle (line : String) : String :=
   let toks := (line.splitOn " ").filter (· ≠ "")
@@ -654,6 +708,9 @@ def handle (line : String) : String :=
       let (p, rest') ← parseProg rest
       if rest' ≠ [] then none else
       some (showRes (discovered own (resolveWith tbl pm) (some ((truth p).map (FwdCall.toRec p)))))
+    | "readsig" :: rest => readSigOp rest       -- support.read_sig on pieces (Model/ReadSig.lean)
+    | "stext" :: rest => sTextOp rest           -- the parameters of support.s(text, …)
+    | "pieces" :: rest => piecesOp rest         -- the native text of a signature, piece by piece
     | "cacheid" :: rest => SV.cacheIdOp rest   -- which instance a looked-up wrapper is bound to (Model/CacheId.lean)
     | "chain" :: rest => SV.chainOp rest       -- the fallback chain of forged_signature (Model/Chain.lean)
     | "makeup" :: ex :: p :: [] => do
